@@ -232,7 +232,10 @@ def tree_fmt(rng, allow_unsup=True, maxlen=4, force_last=None):
             els.append("F " + rng.choice(ok + (un if allow_unsup and rng.random() < 0.15 else [])))
         else:
             sp = ["Alarm", "Backspace", "Form", "Newline", "CarriageReturn", "TabHorizontal", "TabVertical", "Null",
-                  "Backslash", "Ascii %d" % rng.choice([0, 34, 65, 92, 126, 255, 511])]
+                  "Backslash", "Ascii %d" % rng.choice([0, 34, 65, 92, 126, 255, 511]),
+                  # codes only the public constructors can build (a parse yields at most 0o777): around the
+                  # surrogate range, which is no character, and the ends of the 16-bit field
+                  "Ascii %d" % rng.choice([512, 0x7ff, 0x800, 0xd7ff, 0xd800, 0xdbff, 0xdc00, 0xdfff, 0xe000, 0xfffe, 0xffff])]
             els.append("X " + rng.choice(sp + (["Clear"] if allow_unsup and rng.random() < 0.2 else [])))
     if force_last:
         els.append(force_last)
@@ -294,6 +297,9 @@ def tree(rng, depth=4, api_only=True, **kw):
     if depth <= 0 or rng.random() < 0.3:
         return tree_leaf(rng, api_only, **kw)
     r = rng.random()
+    if rng.random() < 0.07:
+        # the same subtree on both sides, as ONE shared allocation (equal VALUE for the model)
+        return "Dup%s %s" % (rng.choice(["And", "Or", "List"]), tree(rng, depth - 1, api_only, **kw))
     if r < 0.3:
         return "And %s %s" % (tree(rng, depth - 1, api_only, **kw), tree(rng, depth - 1, api_only, **kw))
     if r < 0.55:
